@@ -10,6 +10,7 @@ pub mod wrap;
 pub mod c14;
 pub mod c15;
 pub mod c16;
+pub mod c17;
 pub mod c19;
 pub mod c20;
 pub mod contract;
@@ -34,6 +35,7 @@ pub fn dispatch(id: &str, args: &RunArgs) -> i32 {
         "C08" => run_prop(&wrap::C08, args),
         "C15" => run_prop(&c15::C15, args),
         "C16" => run_prop(&c16::C16, args),
+        "C17" => c17::run(args),
         "C18" => run_prop(&wrap::C18, args),
         "C12" => run_prop(&wrap::C12, args),
         "C09" => run_prop(&wrap::C09, args),
